@@ -57,6 +57,7 @@ void h_emit_loop(void) {
     V_ASSERT(e_calls <= maxd, "C06: a declared count larger than the frame can carry never yields more emissions than a maximum-size Emit");
     V_ASSERT(ST->mapper_seq == be16(in.frame + F_SEQ), "C06: the Emit's sequence number is remembered for the ACK");
     V_ASSERT(ST->mapper_known == 1 && mac6_eq(ST->mapper_real.a, in.frame + F_RSRC), "C03,C05: the Emit's sender is (or stays) the active mapper");
+    assert_mapp_step(ST);
 
     V_WITNESS("h_emit_loop end");
 }
